@@ -16,7 +16,7 @@ EXPLANATION = (
 ASSUMPTIONS = ['A1 O_CREAT|O_EXCL is exclusive (also on NFSv3+)',
                'A4 no concurrent modification between the probe and the rename (TOCTOU is '
                'outside the decided part)']
-MINIMUM = {'R04.1': 2, 'R04.2': 1, 'R04.3': 1, 'R04.4': 3, 'R04.5': 1}
+MINIMUM = {'R04.1': 2, 'R04.2': 1, 'R04.3': 1, 'R04.4': 1, 'R04.5': 1, 'R04.6': 1}
 
 
 def check(ctx):
@@ -90,6 +90,20 @@ def check(ctx):
                    message='%s follows symlinks: a dangling symlink left in files/ makes the '
                            'name look free and is then replaced by the move'
                            % p.data['prim'])
+    # ---- R04.6 a name is released only by the process that reserved it
+    for o in r.opens:
+        info_ids = alt_ids(r.info_of(o))
+        rels = [d for d in r.deletes if alt_ids(d.data['roles']['path']) == info_ids]
+        exc = exc_successors(b, o.id)
+        for d in rels:
+            stolen = bool(exc) and d.id in g.reachable_from(exc, blocked=[o.id])
+            ctx.ob('R04.6', 'the .trashinfo is deleted only after its exclusive creation '
+                            'succeeded in this process', not stolen, node=d,
+                   message='when the exclusive creation fails (EEXIST: another trash-put owns '
+                           'the name) the .trashinfo is deleted all the same: the other '
+                           'process loses its reservation and its payload becomes an orphan')
+        if not rels:
+            ctx.ob('R04.6', 'no release of the reservation in this graph', True, node=o)
     # ---- R04.4
     for e in r.mkdirs:
         ctx.ob('R04.4', 'mkdir tolerates concurrent creation', mkdir_tolerant(b, e), node=e,
